@@ -539,3 +539,101 @@ E("EQ-persist-helper-fn", KS,
         }
 
         let (item_size, memtable_size) = self.tree.insert(key, value, seqno);""")
+
+# ======================================================================== C09
+B("C09-syncdata-noop", "C09", "C09:R-C09.1:journal::writer::Writer::persist:arm-SyncData", WRITER,
+  """            PersistMode::SyncData => self.file.get_mut().sync_data().inspect_err(|e| {
+                log::error!(
+                    "Failed to fsyncdata journal file at {}: {e:?}",
+                    self.path.display(),
+                );
+            }),
+            PersistMode::Buffer => Ok(()),""",
+  """            PersistMode::SyncData | PersistMode::Buffer => Ok(()),""")
+B("C09-sync-before-flush", "C09", "C09:R-C09.1:journal::writer::Writer::persist:flush-before-sync", WRITER,
+  """        if self.is_buffer_dirty {
+            self.file.flush().inspect_err(|e| {
+                log::error!(
+                    "Failed to flush journal IO buffers at {}: {e:?}",
+                    self.path.display(),
+                );
+            })?;
+            self.is_buffer_dirty = false;
+        }
+
+        match mode {""",
+  """        if mode == PersistMode::SyncAll {
+            self.file.get_mut().sync_all()?;
+        }
+
+        if self.is_buffer_dirty {
+            self.file.flush().inspect_err(|e| {
+                log::error!(
+                    "Failed to flush journal IO buffers at {}: {e:?}",
+                    self.path.display(),
+                );
+            })?;
+            self.is_buffer_dirty = false;
+        }
+
+        match mode {""")
+B("C09-sync-error-swallowed", "C09", "C09:R-C09.2:journal::writer::Writer::persist:result-of-sync_all", WRITER,
+  """            PersistMode::SyncAll => self.file.get_mut().sync_all().inspect_err(|e| {
+                log::error!(
+                    "Failed to fsync journal file at {}: {e:?}",
+                    self.path.display(),
+                );
+            }),""",
+  """            PersistMode::SyncAll => {
+                self.file.get_mut().sync_all().ok();
+                Ok(())
+            }""")
+B("C09-db-persist-downgrades", "C09", "C09:R-C09.3:db::Database::persist", DB,
+  """        if let Err(e) = self.supervisor.journal.persist(mode) {""",
+  """        let mode = if mode == PersistMode::SyncAll { PersistMode::SyncData } else { mode };
+        if let Err(e) = self.supervisor.journal.persist(mode) {""")
+B("C09-batch-ignores-durability", "C09", "C09:R-C09.3:batch::WriteBatch::commit", BATCH,
+  """        if let Some(mode) = self.durability {
+            if let Err(e) = journal_writer.persist(mode) {""",
+  """        if let Some(_mode) = self.durability {
+            if let Err(e) = journal_writer.persist(PersistMode::Buffer) {""")
+B("C09-rotate-no-sync", "C09", "C09:R-C09.4:journal::writer::Writer::rotate:sync-old", WRITER,
+  """    pub fn rotate(&mut self) -> crate::Result<(PathBuf, PathBuf)> {
+        self.persist(PersistMode::SyncAll)?;""",
+  """    pub fn rotate(&mut self) -> crate::Result<(PathBuf, PathBuf)> {
+        self.persist(PersistMode::Buffer)?;""")
+B("C09-rotate-no-dirsync", "C09", "C09:R-C09.4:journal::writer::Writer::rotate:directory-fsync", WRITER,
+  """        // IMPORTANT: fsync folder on Unix
+        fsync_directory(&folder)?;
+
+        Ok((prev_path, new_path))""",
+  """        Ok((prev_path, new_path))""")
+B("C09-drop-buffer-only", "C09", "C09:R-C09.5", "src/journal/mod.rs",
+  """        match self.persist(PersistMode::SyncAll) {""",
+  """        match self.persist(PersistMode::Buffer) {""")
+B("C09-truncate-no-sync", "C09", "C09:R-C09.4:journal::batch_reader::JournalBatchReader::truncate_to", "src/journal/batch_reader.rs",
+  """        file.set_len(last_valid_pos)?;
+        file.sync_all()?;""",
+  """        file.set_len(last_valid_pos)?;""")
+B("C09-fsync-dir-noop", "C09", "C09:R-C09.6", "src/file.rs",
+  """    file.sync_all().inspect_err(|e| {
+        log::error!("Failed to fsync directory at {}: {e:?}", path.display());
+    })
+}
+
+#[cfg(target_os = "windows")]""",
+  """    drop(file);
+    Ok(())
+}
+
+#[cfg(target_os = "windows")]""")
+E("EQ-persist-match-reordered", WRITER,
+  """            PersistMode::Buffer => Ok(()),
+        }
+    }""",
+  """            PersistMode::Buffer => {
+                let r: std::io::Result<()> = Ok(());
+                r
+            }
+        }
+    }""")
